@@ -405,6 +405,36 @@ class Check(common.Check):
                               'x0': fnum(rng.choice([1, 2, 0.5, 3]), False), 'args': [left, right]})
         return cases
 
+    def sweep_chan_narops(self, rng):
+        """N-ary operators of the table that ChannelList defines itself (`cl.clip(lo, hi)` …, through
+        `_multichannel_perform`): number channels, arguments that are numbers or lists SHORTER and
+        LONGER than the channel list.  Law (flag `flop`): receiver and arguments are expanded together
+        with wrap-around to the longest of them, channel i is the numeric selector on the i-th row."""
+        over = self.chan_overrides()
+        ops = [o for o in (self.index.get('ops') or []) if o['hook'] == '_compose_narop' and o['method'] in over]
+        cases = []
+        for row in ops:
+            for shape in ('longer', 'shorter', 'mixed', 'random'):
+                n = rng.choice([1, 2, 3])
+                lo, hi = rng.choice([(1.0, 4.0), (2.0, 8.0), (0.5, 2.0)])
+                recv = ['chan', [['num', fnum(rng.choice([lo / 2, (lo + hi) / 2, hi * 2, lo, hi + 1]))] for _ in range(n)]]
+                rest = []
+                for j, p_ in enumerate(row['params']):
+                    if p_ == 'clip':
+                        rest.append(['num', 's:' + rng.choice(['minmax', 'min', 'max'])])
+                        continue
+                    base = {'inmin': lo, 'lo': lo, 'inmax': hi, 'hi': hi, 'outmin': 2.0, 'outmax': 16.0,
+                            'incenter': (lo + hi) / 2, 'outcenter': 6.0, 'curve': -2.0}.get(p_, 1.0)
+                    ln = {'longer': n + 1 + j % 2, 'shorter': max(1, n - 1), 'mixed': (n + 2) if j == 0 else 0,
+                          'random': rng.choice([0, 1, 2, 3, 4, 5])}[shape]
+                    if ln == 0:
+                        rest.append(['num', fnum(base)])
+                    else:
+                        rest.append(['list', [['num', fnum(base + rng.choice([0, 0.25, 0.5, 1.0]) * k)] for k in range(ln)]])
+                cases.append({'name': row['method'], 'ns': row['ns'], 'sel': row['sel'], 'numeric': True, 'flop': True,
+                              'x0': fnum(1.0), 'args': [recv] + rest, 'via': 'meth', 'hook': '_compose_narop'})
+        return cases
+
     def sweep_mappers(self, rng):
         """Range mappers (every method of the operator table that takes a `clip` argument) through the
         METHOD entry and the FUNCTION entry, with every clip value ('minmax', 'min', 'max', None) and
@@ -500,7 +530,7 @@ class Check(common.Check):
         if not getattr(self, 'index', None):
             err, res = py2lean.generate('C15', str(common.REPO), write=False)
             self.index = res['index'] if res else py2lean.c15_index_tolerant(str(common.REPO))
-        cases = self.sweep_builtin_reflected(rng) + self.sweep_mappers(rng)
+        cases = self.sweep_builtin_reflected(rng) + self.sweep_mappers(rng) + self.sweep_chan_narops(rng)
         for _ in range(n):
             r = rng.random()
             if r < 0.55:
